@@ -2,7 +2,7 @@
 """Binding demonstration / vacuity guard (DESIGN 1.2): for every trace spec a real recorded trace is
 (a) accepted, (b) rejected at the right line after ONE recorded field is corrupted, (c) rejected after ONE
 mutating event is deleted; for every oracle a corrupted output field is rejected.  Writes
-evidence/selftest.json and exits 1 if any expectation fails."""
+selftest/selftest.json and exits 1 if any expectation fails."""
 import json, os, sys, copy, random
 sys.path.insert(0, os.path.dirname(os.path.abspath(__file__)))
 from vlib import *
@@ -156,6 +156,6 @@ for mut, what in [("mixed_union", "union(a_order, b_index): a position mixed wit
 
 bad = [r for r in results if not r["ok"]]
 os.makedirs(os.path.join(VERIF, "evidence"), exist_ok=True)
-json.dump({"tests": results, "failed": len(bad)}, open(os.path.join(VERIF, "evidence", "selftest.json"), "w"), indent=1)
+json.dump({"tests": results, "failed": len(bad)}, open(os.path.join(VERIF, "selftest", "selftest.json"), "w"), indent=1)
 log("selftest: %d tests, %d failed" % (len(results), len(bad)))
 sys.exit(1 if bad else 0)
